@@ -123,6 +123,11 @@ def check_generated_help(ctx, res, lib):
         if strip_crate(f.impl_trait) == 'service::Help' and f.expn and 'Derive' in f.expn and f.kind == 'AssocFn':
             tk = F.norm_path(f.impl_self['path']) if f.impl_self and f.impl_self.get('k') == 'adt' else None
             by_type.setdefault(tk, {})[f.name] = f
+    parse_fns = {}
+    for f in crate.fns:
+        if f.name == 'parse' and strip_crate(f.impl_trait) == 'service::FromRaw' and f.expn and 'Command' in f.expn \
+                and f.impl_self and f.impl_self.get('k') == 'adt':
+            parse_fns[F.norm_path(f.impl_self['path'])] = f
     n = 0
     for tk, orc in oracle.items():
         if not isinstance(orc, dict) or 'kind' not in orc:
@@ -207,6 +212,8 @@ def check_generated_help(ctx, res, lib):
                     own_checked = True
                     check_own_help(res, tk, cmd, word)
             res.distinct.add("T|walker|%s|%s" % (tk, cmd['name']))
+            if cmd.get('subcommand') and parse_fns.get(tk) is not None:
+                agree_with_parser(res, crate, lib, tk, cmd, syms, d, out, parse_fns[tk])
             if bad:
                 bad.sort(key=lambda x: (len(x[0]), str(x[0])))
                 w_, got, exp = bad[0]
@@ -220,6 +227,75 @@ def check_generated_help(ctx, res, lib):
                         len(bad))))
     if n < 20:
         raise KeyError("only %d generated help functions explored" % n)
+
+
+def agree_with_parser(res, crate, lib, tk, cmd, syms, depth, hout, pf):
+    """Sibling agreement: the derived help walker and the derived parser of the same command must agree on which token of
+    a line is the sub-command name - for *every* explored word, including those whose meaning the statement leaves open
+    (an option that is not followed by its value): `cmd ... sub --help` has to describe the `sub` that `cmd ... sub` runs.
+    Options the command does not declare (the help options themselves) are invisible to the walker and removed first."""
+    import re
+    from .. import genfsm
+    pout, prule, pI = genfsm.explore([crate, lib], pf, cmd['name'], syms, depth, 'parse')
+    opts = cmd.get('options', [])
+
+    def declared(s_):
+        return s_[0] not in ('L', 'S') or any((o.get('long') == s_[1]) if s_[0] == 'L' else (o.get('short') == s_[1]) for o in opts)
+    # parser: words (inputs only) at whose last symbol the parser hands the rest to the sub-command
+    pdeleg = set()
+    pwords = set()
+    for word, rs in pout.items():
+        inputs = tuple(e for e in word if e[0] in ('L', 'S', 'V', 'DD', 'END'))
+        pwords.add(inputs)
+        if any('sub<' in r for r in rs) or any(e[0] == '!sub' for e in word):
+            pdeleg.add(inputs)
+
+    def parser_delegation(seq):
+        for i in range(len(seq)):
+            if tuple(seq[:i + 1]) in pdeleg:
+                return i
+        return None
+    bad = []
+    nchk = 0
+    for word, rs in hout.items():
+        inputs = [e for e in word if e[0] in ('L', 'S', 'V', 'DD', 'END')]
+        sub = [e for e in word if e[0] == 'subhelp']
+        wd = None
+        if sub:
+            try:
+                wd = int(sub[0][2].split('cmd(v')[1].split(',')[0])
+            except (IndexError, ValueError):
+                continue
+        keep = [i for i, e in enumerate(inputs) if declared(e)]
+        red = [inputs[i] for i in keep]
+        if any(e[0] == 'END' for e in red[:-1]):
+            continue
+        wd_red = keep.index(wd) if (wd is not None and wd in keep) else None
+        if wd is not None and wd_red is None:
+            continue
+        pd = parser_delegation([e for e in red if e[0] != 'END'])
+        # comparable only if the parser explored this reduced word (or delegated on a prefix of it)
+        if pd is None and tuple(red) not in pwords and tuple(red + [('END',)]) not in pwords:
+            continue
+        nchk += 1
+        if pd != wd_red:
+            bad.append((tuple(inputs), wd_red, pd, tuple(red)))
+    res.obligations += nchk
+    res.evaluations += nchk
+    res.discharged += nchk - len(bad)
+    res.distinct.add("T|walker-parser|%s|%s" % (tk, cmd['name']))
+    if bad:
+        from .C09 import fmt_word
+        bad.sort(key=lambda x: (len(x[0]), str(x[0])))
+        w_, wd, pd, red = bad[0]
+
+        def say(i):
+            return "no token" if i is None else "token %d" % (i + 1)
+        res.add_violation(dict(
+            rule='C12.walker-parser', key="C12|walker-parser|%s|%s" % (tk, cmd['name']),
+            msg="derived help of %s, command `%s`: for the line `%s %s` the help walker takes %s of `%s` as the sub-command name, "
+                "the derived parser takes %s: help is printed for a different command path than the one the line runs (%d words differ)"
+                % (tk, cmd['name'], cmd['name'], fmt_word(w_), say(wd), fmt_word(red), say(pd), len(bad))))
 
 
 def int_singleton_(v):
